@@ -35,11 +35,11 @@ type mpPtr interface {
 type binCodec struct {
 	name   string
 	n      int
-	val    func(i int) mpVal               // the value (boxed)
-	fresh  func() mpPtr                    // new zero destination
-	dirty  func() mpPtr                    // destination pre-filled with a non-zero value
-	equal  func(i int, p mpPtr) bool       // *p == value i (bitwise for floats)
-	sample func(i int) string              // printable
+	val    func(i int) mpVal         // the value (boxed)
+	fresh  func() mpPtr              // new zero destination
+	dirty  func() mpPtr              // destination pre-filled with a non-zero value
+	equal  func(i int, p mpPtr) bool // *p == value i (bitwise for floats)
+	sample func(i int) string        // printable
 }
 
 func f32eq(a, b float32) bool { return math.Float32bits(a) == math.Float32bits(b) }
@@ -195,9 +195,11 @@ type failAgg struct {
 }
 
 type failSet struct {
-	prefix string
-	m      map[string]*failAgg
-	order  []string
+	worst   float64 // C18: worst error relative to the bound seen in this execution
+	worstAt string
+	prefix  string
+	m       map[string]*failAgg
+	order   []string
 }
 
 func newFailSet(prefix string) *failSet { return &failSet{prefix: prefix, m: map[string]*failAgg{}} }
@@ -370,7 +372,11 @@ func textCases(tier string) []textCase {
 			func(t []byte) (int, error) { v := meta.ExposureMode(99); err := v.UnmarshalText(t); return int(v), err }),
 		enumText("meta.ExposureProgram.text", docExposureProgram, 1<<16,
 			func(i int) ([]byte, error) { return meta.ExposureProgram(i).MarshalText() },
-			func(t []byte) (int, error) { v := meta.ExposureProgram(99); err := v.UnmarshalText(t); return int(v), err }),
+			func(t []byte) (int, error) {
+				v := meta.ExposureProgram(99)
+				err := v.UnmarshalText(t)
+				return int(v), err
+			}),
 	)
 	// MeteringMode JSON (numeric)
 	tc = append(tc, textCase{name: "meta.MeteringMode.json", n: 1 << 16,
